@@ -234,6 +234,11 @@ func confirm(r *vk.Run, cfg Config, st *Stats) {
 		if again != nil {
 			c := *again
 			c.Trace, c.Scenario = p.path, cfg.Name
+			if !r.FreshReplay(&c, 2) {
+				st.Unconfirmed = append(st.Unconfirmed, fmt.Sprintf("%s after %v (seen again in this process, but in neither of two fresh processes replaying it): %s", c.Fingerprint, p.path, c.Detail))
+				done[p.v.Fingerprint] = true
+				continue
+			}
 			r.Report(&c)
 			done[c.Fingerprint] = true
 			done[p.v.Fingerprint] = true
